@@ -27,8 +27,10 @@ pub struct Iso {
     pub emits: u64,
     /// scheduling points passed (parse + eval + emit)
     pub steps: u64,
-    /// bytes that reached fd 1 or fd 2 by any other route
+    /// bytes that reached fd 1 by any other route than the seam
     pub raw: String,
+    /// bytes written to fd 2
+    pub raw_err: String,
 }
 
 impl Iso {
@@ -37,7 +39,7 @@ impl Iso {
         format!("{}{}", self.emitted, self.raw)
     }
     pub fn to_json(&self) -> Value {
-        json!({"res": self.res.to_json(), "emitted": self.emitted, "emits": self.emits, "steps": self.steps, "raw": self.raw})
+        json!({"res": self.res.to_json(), "emitted": self.emitted, "emits": self.emits, "steps": self.steps, "raw": self.raw, "raw_err": self.raw_err})
     }
     pub fn from_json(v: &Value) -> Option<Iso> {
         Some(Iso {
@@ -46,6 +48,7 @@ impl Iso {
             emits: v.get("emits")?.as_u64()?,
             steps: v.get("steps")?.as_u64()?,
             raw: v.get("raw")?.as_str()?.to_string(),
+            raw_err: v.get("raw_err").and_then(|x| x.as_str()).unwrap_or("").to_string(),
         })
     }
 }
@@ -175,15 +178,17 @@ fn serve_one(op: &Op, stack_kb: usize, rand_seed: u64) -> Iso {
         unsafe {
             libc::close(rfd);
             let cap = memfd("iso-raw");
+            let cap_err = memfd("iso-raw-err");
             libc::dup2(cap, 1);
-            libc::dup2(cap, 2);
+            libc::dup2(cap_err, 2);
             // OS randomness is a seeded stream: an answer that depends on it (hash iteration order)
             // is the same on every replay, and differs between the two seeds the stability check uses
             seed_os_randomness(rand_seed);
             let (res, emitted, emits, steps) = eval_here(op, stack_kb);
             let _ = std::io::stdout().flush();
             let raw = read_fd_all(cap);
-            let iso = Iso { res, emitted, emits, steps, raw: String::from_utf8_lossy(&raw).into_owned() };
+            let raw_err = read_fd_all(cap_err);
+            let iso = Iso { res, emitted, emits, steps, raw: String::from_utf8_lossy(&raw).into_owned(), raw_err: String::from_utf8_lossy(&raw_err).into_owned() };
             let bytes = serde_json::to_vec(&iso.to_json()).unwrap();
             let mut off = 0;
             while off < bytes.len() {
@@ -222,7 +227,7 @@ fn serve_one(op: &Op, stack_kb: usize, rand_seed: u64) -> Iso {
     let mut status = 0i32;
     unsafe { libc::waitpid(pid, &mut status, 0) };
     if timed_out {
-        return Iso { res: Res::Crash(format!("hang: no answer within {} ms", ISO_TIMEOUT_MS)), emitted: String::new(), emits: 0, steps: 0, raw: String::new() };
+        return Iso { res: Res::Crash(format!("hang: no answer within {} ms", ISO_TIMEOUT_MS)), emitted: String::new(), emits: 0, steps: 0, raw: String::new(), raw_err: String::new() };
     }
     let parsed = serde_json::from_slice::<Value>(&buf).ok().and_then(|v| Iso::from_json(&v));
     match parsed {
@@ -233,7 +238,7 @@ fn serve_one(op: &Op, stack_kb: usize, rand_seed: u64) -> Iso {
             } else {
                 format!("exit status {}", libc::WEXITSTATUS(status))
             };
-            Iso { res: Res::Crash(how), emitted: String::new(), emits: 0, steps: 0, raw: String::new() }
+            Iso { res: Res::Crash(how), emitted: String::new(), emits: 0, steps: 0, raw: String::new(), raw_err: String::new() }
         }
     }
 }
